@@ -207,16 +207,57 @@ Proof.
   eexists. split; [reflexivity|]. split; [exact Hr'|split; reflexivity].
 Qed.
 
+(* the same for a list variable of a `variables` source, source.<src>.<lst>[next]: element
+   k mod len of THAT list, one counter value of the segment that names the source AND the list *)
+Lemma eval_vnext_row own src lst (t : ctree) (w : cworld) ls elems c0 :
+  assoc_vsrc (cs_vlists (t_src t)) src = Some ls -> assoc_vlist ls lst = Some elems -> elems <> [] ->
+  repr (w_iter w) c0 -> (N.of_nat (c0 (seg_vnext own src lst)) < two63)%N ->
+  exists w',
+    eval_pexpr own (PVNext src lst) t w =
+      Some (w', nth_error elems (c0 (seg_vnext own src lst) mod length elems)) /\
+    repr (w_iter w') (bump c0 (seg_vnext own src lst)) /\
+    w_arr w' = w_arr w /\ w_script w' = w_script w.
+Proof.
+  intros Hs Hl Hne Hr Hk. unfold eval_pexpr. rewrite Hs, Hl.
+  destruct elems as [|e0 elems]; [contradiction|].
+  pose proof (it_next_repr (w_iter w) c0 (seg_vnext own src lst) Hr) as [Hv Hr'].
+  destruct (it_next (w_iter w) (seg_vnext own src lst)) as [v st]. cbn [fst snd] in Hv, Hr'.
+  rewrite Hv. rewrite next_row_k; [|cbn [length]; lia|exact Hk].
+  eexists. split; [reflexivity|]. split; [exact Hr'|split; reflexivity].
+Qed.
+
+(* the segments of different (source, list) pairs are different: lists that share only their
+   name do not share a counter *)
+Lemma seg_vnext_inj own s1 l1 s2 l2 :
+  ~ In 46%N s1 -> ~ In 46%N s2 -> ~ In 91%N l1 -> ~ In 91%N l2 ->
+  seg_vnext own s1 l1 = seg_vnext own s2 l2 -> s1 = s2 /\ l1 = l2.
+Proof.
+  intros H1 H2 H3 H4 E. unfold seg_vnext in E. injection E as E.
+  assert (A : forall (c : N) (a b x y : list N), ~ In c a -> ~ In c b -> a ++ c :: x = b ++ c :: y -> a = b /\ x = y).
+  { intros c a. induction a as [|p a IH]; intros [|q b] x y Ha Hb F; cbn [app] in F.
+    - injection F as ->. split; reflexivity.
+    - injection F as <- _. exfalso. apply Hb. left. reflexivity.
+    - injection F as -> _. exfalso. apply Ha. left. reflexivity.
+    - injection F as <- F. destruct (IH b x y) as [-> ->]; try assumption.
+      + intros G; apply Ha; right; exact G.
+      + intros G; apply Hb; right; exact G.
+      + split; reflexivity. }
+  cbn [app] in E.
+  destruct (A 46%N s1 s2 _ _ H1 H2 E) as [-> E2]. split; [reflexivity|].
+  destruct (A 91%N l1 l2 _ _ H3 H4 E2) as [-> _]. reflexivity.
+Qed.
+
 (* no other path expression touches the iterator *)
 Lemma eval_other_keeps_iter own e (t : ctree) (w w' : cworld) r :
-  (forall src field, e <> PNext src field) ->
+  (forall src field, e <> PNext src field) -> (forall src lst, e <> PVNext src lst) ->
   eval_pexpr own e t w = Some (w', r) -> w' = w.
 Proof.
-  intros Hn. destruct e as [src f|src f|src i f|k|rq v|rq v]; cbn [eval_pexpr].
+  intros Hn Hv. destruct e as [src f|src f|src i f|k|src lst|rq v|rq v]; cbn [eval_pexpr].
   - exfalso. eapply Hn. reflexivity.
   - destruct (assoc_table _ src) as [[|row rows]|]; intros H; try discriminate; injection H as <- _; reflexivity.
   - destruct (assoc_table _ src) as [[|row rows]|]; intros H; try discriminate; injection H as <- _; reflexivity.
   - intros H; injection H as <- _; reflexivity.
+  - exfalso. eapply Hv. reflexivity.
   - intros H; injection H as <- _; reflexivity.
   - intros H; injection H as <- _; reflexivity.
 Qed.
